@@ -4,7 +4,7 @@
    filters: external code) is a parameter of every statement: the theorems hold for any matcher and any filter. *)
 From Coq Require Import List NArith ZArith.
 From Muscle Require Import Refl.Base Refl.Matcher Refl.Session Refl.Server Refl.Bounded Refl.BoundedSpec
-  Refl.BoundedProofs Refl.BoundedRefuted Refl.BoundedServe Refl.BoundedLoops Refl.BoundedTrav Refl.BoundedSound
+  Refl.BoundedProofs Refl.BoundedRefuted Refl.BoundedServe Refl.BoundedLoops Refl.BoundedTrav Refl.BoundedSound Refl.BoundedCount Refl.BoundedCost Refl.BoundedPoly
   Refl.Tree Refl.Traverse Refl.Dispatch Refl.DispatchProofs Gen.Consts.
 Import ListNotations.
 
@@ -21,17 +21,53 @@ Theorem C07_push_loop_fuel : forall (M : MatchOps) (fuel : nat) (sv : server),
 Proof. exact @push_loop_spec. Qed.
 Print Assumptions C07_push_loop_fuel.
 
-(* handler_fuel.  Full statement aimed at (DESIGN 6, C07): "every handler returns within poly(size state + size msg)
-   steps".  Proved: MessageReceivedFromGateway returns for EVERY command (any nesting of batches) in EVERY state
-   (C07_handler_returns), with fuel LINEAR IN THE HEAVIEST OUTGOING MESSAGE a jettison pass meets while the handler runs
-   ([hpeak]): every loop instance iterates at most that often, and the handler computes [bhandle_spec].  Not proved: a
-   polynomial bound of [hpeak] in the size of the INITIAL state and Message (it needs a cost analysis of every handler of
-   Refl/Server.v: a queued Message grows by one item per NodeChangedAux / GetDataCallback call) -- hence `_partial`. *)
-Theorem C07_handler_fuel_partial : forall (M : MatchOps) (fx : fixes) (c : bcmd) (fuel nest : nat) (b : bserver) (s : sid),
+(* handler_fuel, first half: MessageReceivedFromGateway returns for EVERY command (any nesting of batches) in EVERY state with
+   fuel linear in the heaviest outgoing Message a jettison pass meets while the handler runs ([hpeak]); it computes
+   [bhandle_spec].  The second half, C07_handler_fuel below, bounds [hpeak] by a polynomial in the state and the command. *)
+Theorem C07_handler_fuel_peak : forall (M : MatchOps) (fx : fixes) (c : bcmd) (fuel nest : nat) (b : bserver) (s : sid),
   2 <= fuel -> hpeak fx nest b s c < fuel ->
   bhandle fx true fuel nest b s c = Some (bhandle_spec fx nest b s c).
 Proof. exact @handler_fuel. Qed.
-Print Assumptions C07_handler_fuel_partial.
+Print Assumptions C07_handler_fuel_peak.
+
+(* handler_fuel (DESIGN 6, C07: "every handler returns within poly(size state + size msg) steps"): in every state with
+   distinct session ids and distinct node paths ([good_sv], an invariant of the reachable states, kept by every command:
+   C07_good_sv_cmd), for EVERY command of size z = [bsize c] (path clauses + keys + subscriptions + sub-commands), with NT
+   nodes, node weight SZ (nodes + subscriber-table entries), NS sessions and tw items already held in DATAITEMS Messages,
+   fuel above  max(heaviest Message queued for the session, tw + z*(SZ + z*(NT+z+NS+1) + NT + 2*NS + 1))  is adequate:
+   every loop instance of the handler iterates at most that often.  (Cost accounting: Refl/BoundedCost.v -- one item per
+   NodeChangedAux / GetDataCallback call; Refl/BoundedCount.v -- a traversal calls back at most once per node.) *)
+Theorem C07_handler_fuel : forall (M : MatchOps) (fx : fixes) (c : bcmd) (fuel nest : nat) (b : bserver) (s : sid),
+  good_sv (b_sv b) -> 2 <= fuel ->
+  Nat.max (qweight (queue_of b s))
+          (tw (b_sv b) + Gf (bsize c) (length (sv_tree (b_sv b))) (SZ (sv_tree (b_sv b))) (NS (b_sv b))) < fuel ->
+  bhandle fx true fuel nest b s c = Some (bhandle_spec fx nest b s c).
+Proof. exact @handler_fuel_poly. Qed.
+Print Assumptions C07_handler_fuel.
+
+Theorem C07_hpeak_poly : forall (M : MatchOps) (fx : fixes) (c : bcmd) (nest : nat) (b : bserver) (s : sid),
+  good_sv (b_sv b) ->
+  hpeak fx nest b s c <=
+  Nat.max (qweight (queue_of b s))
+          (tw (b_sv b) + Gf (bsize c) (length (sv_tree (b_sv b))) (SZ (sv_tree (b_sv b))) (NS (b_sv b))).
+Proof. exact @hpeak_poly. Qed.
+Print Assumptions C07_hpeak_poly.
+
+Theorem C07_good_sv_cmd : forall (M : MatchOps) (fx : fixes) (b : bserver) (s : sid) (c : bcmd),
+  good_sv (b_sv b) -> good_sv (b_sv (bstep_spec fx b (BCmd s c))).
+Proof. exact @good_sv_cmd. Qed.
+Print Assumptions C07_good_sv_cmd.
+
+(* a traversal calls its callback at most once per node: any measure one call raises by at most 1 grows by at most |tree| *)
+Theorem C07_traversal_calls : forall (M : MatchOps) (A : Type) (cb : A -> node -> A * Z) (mu : A -> nat) (Q : A -> Prop),
+  (forall acc n, Q acc -> Q (fst (cb acc n)) /\ mu (fst (cb acc n)) <= mu acc + 1) ->
+  forall t m root uf gf acc, NoDup (map n_path t) -> Q acc ->
+  Q (do_traversal cb t m root uf gf acc) /\ mu (do_traversal cb t m root uf gf acc) <= mu acc + length t.
+Proof. exact @do_traversal_cost. Qed.
+Print Assumptions C07_traversal_calls.
+
+Example C07_good_sv_satisfiable : @good_sv tiny_ops (@b_sv tiny_ops w_state).
+Proof. exact w_good. Qed.
 
 Theorem C07_handler_returns : forall (M : MatchOps) (fx : fixes) (c : bcmd) (nest : nat) (b : bserver) (s : sid),
   exists fuel0, forall fuel, fuel0 <= fuel -> exists b', bhandle fx true fuel nest b s c = Some b'.
